@@ -87,6 +87,7 @@ fn http(port: u16, method: &str, path: &str, content_type: Option<&str>, body: &
         Ok(s) => s,
         Err(e) => return Outcome::Closed(format!("connect: {}", e)),
     };
+    let _ = stream.set_nodelay(true);
     let _ = stream.set_read_timeout(Some(Duration::from_secs(timeout_s)));
     let _ = stream.set_write_timeout(Some(Duration::from_secs(timeout_s)));
     let mut head = format!("{} {} HTTP/1.1\r\nHost: localhost\r\nConnection: close\r\n", method, path);
@@ -111,11 +112,25 @@ fn http(port: u16, method: &str, path: &str, content_type: Option<&str>, body: &
             }
         }
         Delivery::Dribble => {
+            // ~40 pieces, plus cuts INSIDE multi-byte UTF-8 characters (up to 6 of them)
             let piece = (body.len() / 40).max(1);
-            for chunk in body.chunks(piece) {
-                if let Err(e) = stream.write_all(chunk) {
+            let mut cuts: Vec<usize> = (1..).map(|k| k * piece).take_while(|&c| c < body.len()).collect();
+            let mut inside = 0;
+            for i in 1..body.len() {
+                if body[i] & 0xC0 == 0x80 && inside < 6 {
+                    cuts.push(i); // between a lead byte and its continuation byte
+                    inside += 1;
+                }
+            }
+            cuts.push(body.len());
+            cuts.sort();
+            cuts.dedup();
+            let mut from = 0;
+            for c in cuts {
+                if let Err(e) = stream.write_all(&body[from..c]) {
                     return Outcome::Closed(format!("write body: {}", e));
                 }
+                from = c;
                 let _ = stream.flush();
                 std::thread::sleep(Duration::from_millis(2));
             }
@@ -632,6 +647,11 @@ pub fn case(ctx: &Ctx, idx: u64) -> CaseOut {
         let tag = format!("w{}c{}r{}", ctx.seed, idx, attempts);
         let mut input = gen::generate(&mut rng, &opts, &tag);
         if rng.chance(1, 3) {
+            // hostile ids, among them multi-byte UTF-8 characters (dribbled bodies are cut inside them)
+            gen::hostile_ids(&mut rng, &mut input, &tag);
+            out.count("instances_with_hostile_ids", 1);
+        }
+        if rng.chance(1, 3) {
             force_long_dead_head(&mut input, &mut rng);
             out.count("instances_with_dead_head_longer_than_a_day", 1);
         }
@@ -693,9 +713,9 @@ pub fn case(ctx: &Ctx, idx: u64) -> CaseOut {
         for _ in 0..rng.usize(1, 4) {
             let v = rng.usize(0, valid.len() - 1);
             let kind = match rng.below(100) {
-                0..=27 => Kind::SolveValid(v),
-                28..=34 => Kind::SolveValidShaped(v, rng.below(7) as u8),
-                35..=39 => Kind::SolveValidDribbled(v),
+                0..=24 => Kind::SolveValid(v),
+                25..=31 => Kind::SolveValidShaped(v, rng.below(7) as u8),
+                32..=39 => Kind::SolveValidDribbled(v),
                 40..=51 => Kind::Health,
                 52..=55 => Kind::NotJson,
                 56..=59 => Kind::TruncatedJson(v),
